@@ -28,6 +28,7 @@ ASSUMPTIONS = c04.ASSUMPTIONS + [
     "canonical data = values equal to what their own rendering reads back to (decided with the model's renderer/parser, which is itself compared with the code on every case)",
 ]
 TRUSTED = []
+NOT_THEOREMS = ['read(write D) = D under Spec.C05.inDomain: evaluated per case on model and implementation (needs the C01 float/date laws)']
 EXHAUSTIVE = {"quick": False, "thorough": False}
 IDENTS = ["AA", "BB", "C1", "DD7", "E", "F-", "GG", "H_H"]
 
